@@ -13,9 +13,9 @@ Iso8601/Ext.vos Iso8601/Ext.vok Iso8601/Ext.required_vos: Iso8601/Ext.v Base/GoI
 Generated/Iso8601Gen.vo Generated/Iso8601Gen.glob Generated/Iso8601Gen.v.beautified Generated/Iso8601Gen.required_vo: Generated/Iso8601Gen.v Base/GoInt.vo Iso8601/Ext.vo
 Generated/Iso8601Gen.vio: Generated/Iso8601Gen.v Base/GoInt.vio Iso8601/Ext.vio
 Generated/Iso8601Gen.vos Generated/Iso8601Gen.vok Generated/Iso8601Gen.required_vos: Generated/Iso8601Gen.v Base/GoInt.vos Iso8601/Ext.vos
-Extract/Extract.vo Extract/Extract.glob Extract/Extract.v.beautified Extract/Extract.required_vo: Extract/Extract.v Base/GoInt.vo Iso8601/Ext.vo Generated/Iso8601Gen.vo Iso8601/Spec.vo Generated/AsmAsciiGen.vo Ascii/AsmTotal.vo Generated/AsciiGen.vo Ascii/Spec.vo Proto/Ext.vo Generated/ProtoGen.vo Proto/Model.vo Proto/PrimSpec.vo Proto/Spec.vo Json/Ext.vo Generated/JsonParseGen.vo Json/Grammar.vo Json/Spec.vo Thrift/Model.vo Thrift/Spec.vo
-Extract/Extract.vio: Extract/Extract.v Base/GoInt.vio Iso8601/Ext.vio Generated/Iso8601Gen.vio Iso8601/Spec.vio Generated/AsmAsciiGen.vio Ascii/AsmTotal.vio Generated/AsciiGen.vio Ascii/Spec.vio Proto/Ext.vio Generated/ProtoGen.vio Proto/Model.vio Proto/PrimSpec.vio Proto/Spec.vio Json/Ext.vio Generated/JsonParseGen.vio Json/Grammar.vio Json/Spec.vio Thrift/Model.vio Thrift/Spec.vio
-Extract/Extract.vos Extract/Extract.vok Extract/Extract.required_vos: Extract/Extract.v Base/GoInt.vos Iso8601/Ext.vos Generated/Iso8601Gen.vos Iso8601/Spec.vos Generated/AsmAsciiGen.vos Ascii/AsmTotal.vos Generated/AsciiGen.vos Ascii/Spec.vos Proto/Ext.vos Generated/ProtoGen.vos Proto/Model.vos Proto/PrimSpec.vos Proto/Spec.vos Json/Ext.vos Generated/JsonParseGen.vos Json/Grammar.vos Json/Spec.vos Thrift/Model.vos Thrift/Spec.vos
+Extract/Extract.vo Extract/Extract.glob Extract/Extract.v.beautified Extract/Extract.required_vo: Extract/Extract.v Base/GoInt.vo Iso8601/Ext.vo Generated/Iso8601Gen.vo Iso8601/Spec.vo Generated/AsmAsciiGen.vo Ascii/AsmTotal.vo Generated/AsciiGen.vo Ascii/Spec.vo Proto/Ext.vo Generated/ProtoGen.vo Proto/Model.vo Proto/PrimSpec.vo Proto/Spec.vo Json/Ext.vo Generated/JsonParseGen.vo Json/Grammar.vo Json/Spec.vo Thrift/Model.vo Thrift/Spec.vo Json/StreamModel.vo
+Extract/Extract.vio: Extract/Extract.v Base/GoInt.vio Iso8601/Ext.vio Generated/Iso8601Gen.vio Iso8601/Spec.vio Generated/AsmAsciiGen.vio Ascii/AsmTotal.vio Generated/AsciiGen.vio Ascii/Spec.vio Proto/Ext.vio Generated/ProtoGen.vio Proto/Model.vio Proto/PrimSpec.vio Proto/Spec.vio Json/Ext.vio Generated/JsonParseGen.vio Json/Grammar.vio Json/Spec.vio Thrift/Model.vio Thrift/Spec.vio Json/StreamModel.vio
+Extract/Extract.vos Extract/Extract.vok Extract/Extract.required_vos: Extract/Extract.v Base/GoInt.vos Iso8601/Ext.vos Generated/Iso8601Gen.vos Iso8601/Spec.vos Generated/AsmAsciiGen.vos Ascii/AsmTotal.vos Generated/AsciiGen.vos Ascii/Spec.vos Proto/Ext.vos Generated/ProtoGen.vos Proto/Model.vos Proto/PrimSpec.vos Proto/Spec.vos Json/Ext.vos Generated/JsonParseGen.vos Json/Grammar.vos Json/Spec.vos Thrift/Model.vos Thrift/Spec.vos Json/StreamModel.vos
 Iso8601/Spec.vo Iso8601/Spec.glob Iso8601/Spec.v.beautified Iso8601/Spec.required_vo: Iso8601/Spec.v Base/GoInt.vo Iso8601/Ext.vo Generated/Iso8601Gen.vo
 Iso8601/Spec.vio: Iso8601/Spec.v Base/GoInt.vio Iso8601/Ext.vio Generated/Iso8601Gen.vio
 Iso8601/Spec.vos Iso8601/Spec.vok Iso8601/Spec.required_vos: Iso8601/Spec.v Base/GoInt.vos Iso8601/Ext.vos Generated/Iso8601Gen.vos
@@ -61,18 +61,18 @@ Proto/Spec.vos Proto/Spec.vok Proto/Spec.required_vos: Proto/Spec.v Base/GoInt.v
 Proto/DecProofs.vo Proto/DecProofs.glob Proto/DecProofs.v.beautified Proto/DecProofs.required_vo: Proto/DecProofs.v Base/GoInt.vo Proto/Ext.vo Generated/ProtoGen.vo Proto/Model.vo Proto/PrimSpec.vo Proto/PrimProofs.vo Proto/Spec.vo
 Proto/DecProofs.vio: Proto/DecProofs.v Base/GoInt.vio Proto/Ext.vio Generated/ProtoGen.vio Proto/Model.vio Proto/PrimSpec.vio Proto/PrimProofs.vio Proto/Spec.vio
 Proto/DecProofs.vos Proto/DecProofs.vok Proto/DecProofs.required_vos: Proto/DecProofs.v Base/GoInt.vos Proto/Ext.vos Generated/ProtoGen.vos Proto/Model.vos Proto/PrimSpec.vos Proto/PrimProofs.vos Proto/Spec.vos
-Proto/RoundTrip.vo Proto/RoundTrip.glob Proto/RoundTrip.v.beautified Proto/RoundTrip.required_vo: Proto/RoundTrip.v Base/GoInt.vo Proto/Ext.vo Generated/ProtoGen.vo Proto/Model.vo Proto/PrimSpec.vo Proto/PrimProofs.vo Proto/Spec.vo
-Proto/RoundTrip.vio: Proto/RoundTrip.v Base/GoInt.vio Proto/Ext.vio Generated/ProtoGen.vio Proto/Model.vio Proto/PrimSpec.vio Proto/PrimProofs.vio Proto/Spec.vio
-Proto/RoundTrip.vos Proto/RoundTrip.vok Proto/RoundTrip.required_vos: Proto/RoundTrip.v Base/GoInt.vos Proto/Ext.vos Generated/ProtoGen.vos Proto/Model.vos Proto/PrimSpec.vos Proto/PrimProofs.vos Proto/Spec.vos
+Proto/RoundTrip.vo Proto/RoundTrip.glob Proto/RoundTrip.v.beautified Proto/RoundTrip.required_vo: Proto/RoundTrip.v Base/GoInt.vo Proto/Ext.vo Generated/ProtoGen.vo Proto/Model.vo Proto/PrimSpec.vo Proto/PrimProofs.vo Proto/Spec.vo Proto/DecProofs.vo
+Proto/RoundTrip.vio: Proto/RoundTrip.v Base/GoInt.vio Proto/Ext.vio Generated/ProtoGen.vio Proto/Model.vio Proto/PrimSpec.vio Proto/PrimProofs.vio Proto/Spec.vio Proto/DecProofs.vio
+Proto/RoundTrip.vos Proto/RoundTrip.vok Proto/RoundTrip.required_vos: Proto/RoundTrip.v Base/GoInt.vos Proto/Ext.vos Generated/ProtoGen.vos Proto/Model.vos Proto/PrimSpec.vos Proto/PrimProofs.vos Proto/Spec.vos Proto/DecProofs.vos
 Proto/EncProofs.vo Proto/EncProofs.glob Proto/EncProofs.v.beautified Proto/EncProofs.required_vo: Proto/EncProofs.v Base/GoInt.vo Proto/Ext.vo Generated/ProtoGen.vo Proto/Model.vo Proto/PrimSpec.vo Proto/PrimProofs.vo Proto/Spec.vo
 Proto/EncProofs.vio: Proto/EncProofs.v Base/GoInt.vio Proto/Ext.vio Generated/ProtoGen.vio Proto/Model.vio Proto/PrimSpec.vio Proto/PrimProofs.vio Proto/Spec.vio
 Proto/EncProofs.vos Proto/EncProofs.vok Proto/EncProofs.required_vos: Proto/EncProofs.v Base/GoInt.vos Proto/Ext.vos Generated/ProtoGen.vos Proto/Model.vos Proto/PrimSpec.vos Proto/PrimProofs.vos Proto/Spec.vos
 Proto/PrimSpec.vo Proto/PrimSpec.glob Proto/PrimSpec.v.beautified Proto/PrimSpec.required_vo: Proto/PrimSpec.v Base/GoInt.vo Proto/Ext.vo Generated/ProtoGen.vo
 Proto/PrimSpec.vio: Proto/PrimSpec.v Base/GoInt.vio Proto/Ext.vio Generated/ProtoGen.vio
 Proto/PrimSpec.vos Proto/PrimSpec.vok Proto/PrimSpec.required_vos: Proto/PrimSpec.v Base/GoInt.vos Proto/Ext.vos Generated/ProtoGen.vos
-Properties/C03.vo Properties/C03.glob Properties/C03.v.beautified Properties/C03.required_vo: Properties/C03.v Base/GoInt.vo Proto/Ext.vo Generated/ProtoGen.vo Proto/Model.vo Proto/PrimSpec.vo Proto/Spec.vo Proto/EncProofs.vo
-Properties/C03.vio: Properties/C03.v Base/GoInt.vio Proto/Ext.vio Generated/ProtoGen.vio Proto/Model.vio Proto/PrimSpec.vio Proto/Spec.vio Proto/EncProofs.vio
-Properties/C03.vos Properties/C03.vok Properties/C03.required_vos: Properties/C03.v Base/GoInt.vos Proto/Ext.vos Generated/ProtoGen.vos Proto/Model.vos Proto/PrimSpec.vos Proto/Spec.vos Proto/EncProofs.vos
+Properties/C03.vo Properties/C03.glob Properties/C03.v.beautified Properties/C03.required_vo: Properties/C03.v Base/GoInt.vo Proto/Ext.vo Generated/ProtoGen.vo Proto/Model.vo Proto/PrimSpec.vo Proto/Spec.vo Proto/EncProofs.vo Proto/RoundTrip.vo
+Properties/C03.vio: Properties/C03.v Base/GoInt.vio Proto/Ext.vio Generated/ProtoGen.vio Proto/Model.vio Proto/PrimSpec.vio Proto/Spec.vio Proto/EncProofs.vio Proto/RoundTrip.vio
+Properties/C03.vos Properties/C03.vok Properties/C03.required_vos: Properties/C03.v Base/GoInt.vos Proto/Ext.vos Generated/ProtoGen.vos Proto/Model.vos Proto/PrimSpec.vos Proto/Spec.vos Proto/EncProofs.vos Proto/RoundTrip.vos
 Json/Ext.vo Json/Ext.glob Json/Ext.v.beautified Json/Ext.required_vo: Json/Ext.v Base/GoInt.vo Base/Lanes.vo
 Json/Ext.vio: Json/Ext.v Base/GoInt.vio Base/Lanes.vio
 Json/Ext.vos Json/Ext.vok Json/Ext.required_vos: Json/Ext.v Base/GoInt.vos Base/Lanes.vos
@@ -109,18 +109,27 @@ Thrift/ProofsB.vos Thrift/ProofsB.vok Thrift/ProofsB.required_vos: Thrift/Proofs
 Thrift/ProofsA.vo Thrift/ProofsA.glob Thrift/ProofsA.v.beautified Thrift/ProofsA.required_vo: Thrift/ProofsA.v Base/GoInt.vo Thrift/Model.vo Thrift/Spec.vo
 Thrift/ProofsA.vio: Thrift/ProofsA.v Base/GoInt.vio Thrift/Model.vio Thrift/Spec.vio
 Thrift/ProofsA.vos Thrift/ProofsA.vok Thrift/ProofsA.required_vos: Thrift/ProofsA.v Base/GoInt.vos Thrift/Model.vos Thrift/Spec.vos
-Properties/C04.vo Properties/C04.glob Properties/C04.v.beautified Properties/C04.required_vo: Properties/C04.v Base/GoInt.vo Thrift/Model.vo
-Properties/C04.vio: Properties/C04.v Base/GoInt.vio Thrift/Model.vio
-Properties/C04.vos Properties/C04.vok Properties/C04.required_vos: Properties/C04.v Base/GoInt.vos Thrift/Model.vos
-Properties/C08.vo Properties/C08.glob Properties/C08.v.beautified Properties/C08.required_vo: Properties/C08.v Base/GoInt.vo Thrift/Model.vo
-Properties/C08.vio: Properties/C08.v Base/GoInt.vio Thrift/Model.vio
-Properties/C08.vos Properties/C08.vok Properties/C08.required_vos: Properties/C08.v Base/GoInt.vos Thrift/Model.vos
-Properties/C13.vo Properties/C13.glob Properties/C13.v.beautified Properties/C13.required_vo: Properties/C13.v Base/GoInt.vo Thrift/Model.vo
-Properties/C13.vio: Properties/C13.v Base/GoInt.vio Thrift/Model.vio
-Properties/C13.vos Properties/C13.vok Properties/C13.required_vos: Properties/C13.v Base/GoInt.vos Thrift/Model.vos
+Properties/C04.vo Properties/C04.glob Properties/C04.v.beautified Properties/C04.required_vo: Properties/C04.v Base/GoInt.vo Thrift/Model.vo Thrift/Spec.vo Thrift/ProofsB.vo
+Properties/C04.vio: Properties/C04.v Base/GoInt.vio Thrift/Model.vio Thrift/Spec.vio Thrift/ProofsB.vio
+Properties/C04.vos Properties/C04.vok Properties/C04.required_vos: Properties/C04.v Base/GoInt.vos Thrift/Model.vos Thrift/Spec.vos Thrift/ProofsB.vos
+Properties/C08.vo Properties/C08.glob Properties/C08.v.beautified Properties/C08.required_vo: Properties/C08.v Base/GoInt.vo Thrift/Model.vo Thrift/Spec.vo Thrift/ProofsA.vo Thrift/ProofsB.vo
+Properties/C08.vio: Properties/C08.v Base/GoInt.vio Thrift/Model.vio Thrift/Spec.vio Thrift/ProofsA.vio Thrift/ProofsB.vio
+Properties/C08.vos Properties/C08.vok Properties/C08.required_vos: Properties/C08.v Base/GoInt.vos Thrift/Model.vos Thrift/Spec.vos Thrift/ProofsA.vos Thrift/ProofsB.vos
+Properties/C13.vo Properties/C13.glob Properties/C13.v.beautified Properties/C13.required_vo: Properties/C13.v Base/GoInt.vo Thrift/Model.vo Thrift/Spec.vo Thrift/ProofsA.vo
+Properties/C13.vio: Properties/C13.v Base/GoInt.vio Thrift/Model.vio Thrift/Spec.vio Thrift/ProofsA.vio
+Properties/C13.vos Properties/C13.vok Properties/C13.required_vos: Properties/C13.v Base/GoInt.vos Thrift/Model.vos Thrift/Spec.vos Thrift/ProofsA.vos
 Properties/C01.vo Properties/C01.glob Properties/C01.v.beautified Properties/C01.required_vo: Properties/C01.v Base/GoInt.vo
 Properties/C01.vio: Properties/C01.v Base/GoInt.vio
 Properties/C01.vos Properties/C01.vok Properties/C01.required_vos: Properties/C01.v Base/GoInt.vos
 Properties/C02.vo Properties/C02.glob Properties/C02.v.beautified Properties/C02.required_vo: Properties/C02.v Base/GoInt.vo
 Properties/C02.vio: Properties/C02.v Base/GoInt.vio
 Properties/C02.vos Properties/C02.vok Properties/C02.required_vos: Properties/C02.v Base/GoInt.vos
+Json/StreamModel.vo Json/StreamModel.glob Json/StreamModel.v.beautified Json/StreamModel.required_vo: Json/StreamModel.v Base/GoInt.vo Generated/AsmAsciiGen.vo Ascii/AsmTotal.vo Generated/AsciiGen.vo Json/Ext.vo Generated/JsonParseGen.vo
+Json/StreamModel.vio: Json/StreamModel.v Base/GoInt.vio Generated/AsmAsciiGen.vio Ascii/AsmTotal.vio Generated/AsciiGen.vio Json/Ext.vio Generated/JsonParseGen.vio
+Json/StreamModel.vos Json/StreamModel.vok Json/StreamModel.required_vos: Json/StreamModel.v Base/GoInt.vos Generated/AsmAsciiGen.vos Ascii/AsmTotal.vos Generated/AsciiGen.vos Json/Ext.vos Generated/JsonParseGen.vos
+Properties/C11.vo Properties/C11.glob Properties/C11.v.beautified Properties/C11.required_vo: Properties/C11.v Base/GoInt.vo Json/StreamModel.vo
+Properties/C11.vio: Properties/C11.v Base/GoInt.vio Json/StreamModel.vio
+Properties/C11.vos Properties/C11.vok Properties/C11.required_vos: Properties/C11.v Base/GoInt.vos Json/StreamModel.vos
+Properties/C17.vo Properties/C17.glob Properties/C17.v.beautified Properties/C17.required_vo: Properties/C17.v Base/GoInt.vo Json/StreamModel.vo
+Properties/C17.vio: Properties/C17.v Base/GoInt.vio Json/StreamModel.vio
+Properties/C17.vos Properties/C17.vok Properties/C17.required_vos: Properties/C17.v Base/GoInt.vos Json/StreamModel.vos
